@@ -259,8 +259,10 @@ func init() {
 		// "encoding is canonical" and "decoding ignores bit 255 / reduces mod p" rest on the byte<->limb
 		// conversions of the field back end: decided as affine identities in BOTH radices (E-LIN)
 		if c.Preload("purego", "f32") {
+			exp := expRule(run, 2)
 			for _, id2 := range []string{"purego", "f32"} {
 				run.SetConfig(id2)
+				checkExpAll(run, c.Prog(id2), exp) // the square root behind decoding (E-EXP)
 				lr := elin.CheckField(run, c.Prog(id2), "LIN")
 				run.Sample(map[string]any{"config": id2, "LIN functions": lr.Functions, "LIN obligations": lr.Obligations})
 			}
